@@ -82,6 +82,17 @@ pub fn run(rep: &mut Report, tier: &str, seed: u64) {
         for i in 0..ds.len() {
             text.push_str(&format!("  attr (n) g{} = G{}\n", i, i));
         }
+        // a declared quantifier keeps its meaning whether or not the global also has a default: `?` may be tested with
+        // some / none, `*` and `+` may be iterated
+        for (i, (q, dflt)) in ds.iter().enumerate() {
+            match q {
+                // (a defaulted list global holds the default STRING when unsupplied: iterating it fails, rightly)
+                Q::Star | Q::Plus if *dflt => {}
+                Q::Opt => text.push_str(&format!("  if some G{} {{\n    attr (n) some{} = 1\n  }} elif none G{} {{\n    attr (n) none{} = 1\n  }}\n", i, i, i, i)),
+                Q::Star | Q::Plus => text.push_str(&format!("  for zg{} in G{} {{\n  }}\n", i, i)),
+                Q::One => {}
+            }
+        }
         }
         if !stanzaless { text.push_str("  if #true {\n    attr (n) in_if = G0\n    for x in [1] {\n      attr (n) in_for = G0\n      scan \"ab\" {\n        \"a\" {\n          attr (n) in_scan = G0, sh = 1\n        }\n      }\n    }\n  }\n}\n"); }
         if stanzaless {
